@@ -1,11 +1,34 @@
 import PharmpyModel.C08.FV
 import PharmpyModel.C08.Mfl
+import PharmpyModel.C08.Ledger
 set_option linter.unusedSimpArgs false
 /-
   C08 — adjacency lemmas of the canonical graph, for every number of transit and
   peripheral compartments (inductions over n and k).
 -/
 namespace Pharmpy.C08
+
+/-! ### the tail of set_transit_compartments -/
+
+theorem transitsTail_ok (s : FV) (n : Nat) (h : Bool) (s' : FV) (hs : transitsTail s n h = .ok s') :
+    s'.transits = n ∧ s'.depot = s.depot ∧ s'.lag = s.lag := by
+  unfold transitsTail at hs
+  split at hs
+  · cases hs; simp_all
+  · split at hs
+    · cases hs
+    · split at hs
+      · split at hs
+        · cases hs
+        · split at hs <;> cases hs
+      · split at hs
+        · cases hs
+        · split at hs
+          · cases hs; simp_all
+          · cases hs; simp
+
+theorem transitsTail_self (s : FV) (n : Nat) (h : Bool) (hn : s.transits = n) : transitsTail s n h = .ok s := by
+  simp [transitsTail, hn]
 
 /-! ### transit chain -/
 
